@@ -66,3 +66,32 @@ Definition fr_add_inline_frame (o : sym_out) (name : Z) (file line : option Z) :
    FUNC of the table (SrcTie.src_fuel_covers: it covers every FUNC; c11_compiled_fill_symbol: that suffices) *)
 Definition src_fuel (st : symtab) : nat :=
   fold_right (fun rf n => Nat.max (length (fn_inls (snd rf))) n) 0%nat (st_funcs st).
+
+(* ---- the Symbolizer level (Symbolizer::fill_symbol, fill_source_line_info).  A StackFrame as far as symbolication goes:
+   its instruction, the module attached (position in the module list) and what the FrameSymbolizer callbacks stored
+   (impl FrameSymbolizer for StackFrame: set_function / set_source_file overwrite, add_inline_frame pushes). *)
+Record sframe := mk_sframe { sf_instr : Z; sf_module : option Z; sf_out : sym_out }.
+(* MinidumpModuleList: the range table of C08 (Model.mod_table) and the modules; a module of the list with its position *)
+Definition modlist := (list (range * Z) * list module)%type.
+Definition module_at (ml : modlist) (x : Z) : outcome (option (Z * module)) :=
+  match rm_get (fst ml) x with
+  | None => Ret None
+  | Some idx => match nth_error (snd ml) (Z.to_nat idx) with
+                | Some m => Ret (Some (idx, m))
+                | None => Panic PANIC_MODIDX
+                end
+  end.
+Definition mod_base (m : Z * module) : Z := fst (fst (snd m)).
+(* what `self.get_symbols(module).await` yields: the module's parsed symbol file, or an error (None) — how the cache gets it
+   there, once, under any interleaving, is C12's model (C11/Session.v composes the two) *)
+Definition get_symbols (m : Z * module) : option symtab := snd (snd m).
+Definition sf_set_module (fr : sframe) (o : option (Z * module)) : sframe :=
+  mk_sframe (sf_instr fr) (option_map fst o) (sf_out fr).
+(* SymbolFile::fill_symbol(module, frame) on a StackFrame: the callbacks it made, applied to the frame *)
+Definition sf_apply (fr : sframe) (o : sym_out) : sframe :=
+  mk_sframe (sf_instr fr) (sf_module fr)
+    (mk_out (match o_func o with Some f => Some f | None => o_func (sf_out fr) end)
+            (match o_src o with Some f => Some f | None => o_src (sf_out fr) end)
+            (o_inl (sf_out fr) ++ o_inl o)).
+Definition sf_reverse_inlines (fr : sframe) : sframe :=
+  mk_sframe (sf_instr fr) (sf_module fr) (mk_out (o_func (sf_out fr)) (o_src (sf_out fr)) (rev (o_inl (sf_out fr)))).
